@@ -1,11 +1,23 @@
 (* nvref_c09: line protocol
      lex <src-hex>     -> ok <n> <type>:<line>:<col>:<value-hex|-|=> ...  |  lexnull      (same format as probes/front_probe.c `lex`)
      front <src-hex>   -> model of tokenize + parse_expression on the tokens after the first '=' (used for text-level replays):
-                          lexnull | ok|hang|unsupported|generic|fuel *)
+                          lexnull | ok|hang|unsupported|generic|fuel
+     imports <main> <k>=<d>,<d>.. ...   -> model of the import phase (NV.Front.ImportGraph) on the graph "file k imports d, d, .." ("-" = none),
+                          main = the program file; answer: "<guarded> | <unguarded>", each  ok <loaded,..> | cycle <k> | missing <k> | fuel *)
 let show_tok (t : ltoken) =
   Printf.sprintf "%d:%d:%d:%s" (int_of_n (kind_code t.lk)) (int_of_n t.lline) (int_of_n t.lcol)
     (match t.lv with None -> "-" | Some v -> if v = [] then "=" else hex_of_bytes v)
 let assign_code = int_of_n (kind_code K_ASSIGN)
+let show_import_result r = match r with
+  | Done c -> "ok " ^ (match c with [] -> "-" | _ -> String.concat "," (List.map (fun (k, a) -> string_of_int (int_of_nat k) ^ (if a then "" else "?")) c))
+  | Diag (Cycle k) -> "cycle " ^ string_of_int (int_of_nat k)
+  | Diag (Missing k) -> "missing " ^ string_of_int (int_of_nat k)
+  | NoFuel -> "fuel"
+let parse_graph (ws : ostring list) =
+  List.map (fun w -> match String.split_on_char '=' w with
+    | [k; ds] -> (nat_of_int (int_of_string k),
+                  if ds = "-" then [] else List.map (fun d -> nat_of_int (int_of_string d)) (String.split_on_char ',' ds))
+    | _ -> failwith "graph") ws
 let () = iter_lines (fun line ->
   try
     match words line with
@@ -27,6 +39,10 @@ let () = iter_lines (fun line ->
               | OutOfFuel -> print_string "fuel\n")
          | LNull -> print_string "lexnull\n"
          | LFuel -> print_string "fuel\n")
+    | "imports" :: m :: rest ->
+        let g = parse_graph rest in
+        let m = nat_of_int (int_of_string m) in
+        print_string (show_import_result (run_guarded g m) ^ " | " ^ show_import_result (run_unguarded g m) ^ "\n")
     | [] -> ()
     | _ -> print_string "bad\n"
   with Failure m -> print_string ("bad " ^ m ^ "\n"))
